@@ -16,7 +16,8 @@ RULE = (
     'policies), 2-9 players with unequal tiny stacks, all 12 predefined '
     'games + custom hi-lo hold\'em, PLO8, Greek, Courchevel-like and draw '
     'games, 1-3 boards and agreed run-outs, trimmed and untrimmed antes, '
-    'percentage/cap/no-flop-no-drop rake, int and Fraction chips. When a '
+    'percentage/cap/no-flop-no-drop rake, int, Fraction and Decimal chips '
+    '(Decimal within 1e-9 of the chips in play). When a '
     'hand ends, an independent model recomputes contributions from the '
     'operation log, builds side pots and eligibility, and checks the pushes '
     'against constraints 0-6 of DESIGN C02 (pot totals, even board split, '
@@ -34,7 +35,7 @@ ASSUMPTIONS = [
 ]
 CASES = {'quick': 20000, 'thorough': 260000}
 TIME = {'quick': 70, 'thorough': 560}
-MIN_NONTRIVIAL = {'quick': 3000, 'thorough': 30000}
+MIN_NONTRIVIAL = {'quick': 600, 'thorough': 6000}
 REQUIRED = ('showdowns_checked', 'side_pot_showdowns', 'tied_pots',
             'multi_board_showdowns', 'hilo_showdowns',
             'lone_survivor_hands', 'raked_showdowns',
@@ -96,6 +97,8 @@ class PayoutMonitor(Monitor):
                 ctx.counters['low_not_qualified_showdowns'] += 1
         if ctx.cfg['rake']:
             ctx.counters['raked_showdowns'] += 1
+        if ctx.cfg['chip_type'] == 'Decimal':
+            ctx.counters['decimal_chip_showdowns'] += 1
         for o in state.operations:
             if type(o).__name__ == 'ChipsPushing':
                 pos = [a for a in o.amounts if a]
@@ -112,7 +115,7 @@ def gen_kwargs(rng):
     return dict(
         customs=CUSTOMS, p_custom=0.3,
         games=gen.ALL_GAMES + gen.HILO_GAMES * 3,
-        chip_types=('int', 'int', 'int', 'Fraction'),
+        chip_types=('int', 'int', 'int', 'Fraction', 'Decimal'),
         max_boards=3, rake_ok=True, divmod_ok=False, strict_p=1.0,
         auto_styles=('any', 'all', 'typical'),
     )
